@@ -672,6 +672,114 @@ func genTmpl(r *Rng, depth int) []cpiece {
 	return b
 }
 
+// ---- layered escapes (mirror of Model/TmplPrint.v eprint): literal text over all runes ----
+func isSpecial(r rune) bool { return isSyntax(r) || unicode.IsSpace(r) }
+
+func lesc(s []rune) []rune {
+	var o []rune
+	for _, c := range s {
+		if isSpecial(c) {
+			o = append(o, '\\')
+		}
+		o = append(o, c)
+	}
+	return o
+}
+func lescn(n int, s []rune) []rune {
+	for ; n > 0; n-- {
+		s = lesc(s)
+	}
+	return s
+}
+func eprintBody(j int, b []cpiece) []rune {
+	var r []rune
+	for _, p := range b {
+		r = append(r, eprintPiece(j, p)...)
+	}
+	return r
+}
+func eprintPiece(j int, p cpiece) []rune {
+	switch p.kind {
+	case 0:
+		return lescn(j+1, p.s)
+	case 1:
+		return printPiece(p)
+	}
+	r := append([]rune{'{'}, p.pre...)
+	r = append(r, quote(p.q, p.s)...)
+	for _, a := range p.args {
+		r = append(r, a.sep...)
+		r = append(r, quote(a.q, eprintBody(j+2, a.body))...)
+	}
+	r = append(r, p.post...)
+	return append(r, '}')
+}
+
+var escLitPool = []rune{' ', ' ', '\\', '\\', '{', '}', '"', '\t', '\n', '\r', 'n', 't', 'r', 'a', 'b', 'C', ':', '0', 0x3000, 0xe9, 0x4e2d}
+
+func genEscLit(r *Rng, lo, hi int) []rune {
+	n := r.Range(lo, hi)
+	s := make([]rune, n)
+	for i := range s {
+		s[i] = Pick(r, escLitPool)
+	}
+	return s
+}
+
+// calls nested to the given depth whose literal arguments need escaping at every depth;
+// quotedStyle: literal arguments in double quotes where possible, else bare (white space escaped)
+func genEscStmt(r *Rng, depth int, allowQuotes, quotedStyle bool) cpiece {
+	p := cpiece{kind: 2, pre: genSpaces(r, 0), post: genSpaces(r, 0), s: []rune(Pick(r, probeNames))}
+	nargs := 1 + r.Intn(3)
+	nested := r.Intn(nargs) // this argument carries the nesting
+	for i := 0; i < nargs; i++ {
+		a := carg{sep: genSpaces(r, 1)}
+		q := allowQuotes && (quotedStyle || r.Chance(1, 5))
+		inner := allowQuotes && !q
+		var body []cpiece
+		if depth > 1 && (i == nested || r.Chance(1, 4)) {
+			if r.Chance(1, 3) {
+				body = append(body, cpiece{kind: 0, s: genEscLit(r, 0, 2)})
+			}
+			body = append(body, genEscStmt(r, depth-1, inner, quotedStyle))
+			if r.Chance(1, 3) {
+				body = append(body, cpiece{kind: 0, s: genEscLit(r, 1, 2)})
+			}
+		} else if r.Chance(1, 6) {
+			body = append(body, genVar(r, inner))
+		} else {
+			lo := 1
+			if q && r.Chance(1, 6) {
+				lo = 0
+			}
+			hi := 4
+			if depth <= 1 {
+				hi = 3
+			}
+			body = append(body, cpiece{kind: 0, s: genEscLit(r, lo, hi)})
+		}
+		a.q = q
+		if !q && len(eprintBody(0, body)) == 0 {
+			body = append(body, cpiece{kind: 0, s: []rune("x")})
+		}
+		a.body = body
+		p.args = append(p.args, a)
+	}
+	return p
+}
+
+func genEscTmpl(r *Rng, depth int, quotedStyle bool) []cpiece {
+	var b []cpiece
+	if r.Chance(1, 2) {
+		b = append(b, cpiece{kind: 0, s: genEscLit(r, 0, 4)})
+	}
+	b = append(b, genEscStmt(r, depth, true, quotedStyle))
+	if r.Chance(1, 2) {
+		b = append(b, cpiece{kind: 0, s: genEscLit(r, 1, 4)})
+	}
+	return b
+}
+
 func escRunes(s []rune) []rune {
 	var o []rune
 	for _, c := range s {
@@ -901,7 +1009,8 @@ func c09Gen(r *Rng, n int, tier string) []Case {
 	}
 	// fixed seeds of interest (documentation examples and the probes of DESIGN 6/C09)
 	for _, t := range []string{`abc\`, `{f0 {f1 a}b}`, `{+1}{01}{1x}`, `{f0 a\ b}`, `{f0 "a}b" c}`, `{f0 "" a}`, `{}`, `{ }`,
-		`{f0 {} x}`, `a{f0 {f1 {nofn 1 2}} {`, `{f0 a\\\\}`, `{"1"}{""}{"a b"}`, `{f0 a"b c"}`, `{f0 "a""b"}`, `{g2 a}`, `{g2 {} b c}`} {
+		`{f0 {} x}`, `a{f0 {f1 {nofn 1 2}} {`, `{f0 a\\\\}`, `{"1"}{""}{"a b"}`, `{f0 a"b c"}`, `{f0 "a""b"}`, `{g2 a}`, `{g2 {} b c}`,
+		`{f0 x {f1 {1} a\\\\\\ b} y}`, `{f0 {f1 "a b" "C:\\\\\\\\dir"}}`, `{f0 {f1 {f2 "q\\\\\\"q"}}}`} {
 		cases = append(cases, mkCase("seed", "KRaw", []rune(t)))
 	}
 	for _, sq := range [][]string{
@@ -934,6 +1043,27 @@ func c09Gen(r *Rng, n int, tier string) []Case {
 	for len(cases) < base+n {
 		depth := 1 + r.Intn(4)
 		switch x := r.Intn(100); {
+		case x < 8:
+			d := 2 + r.Intn(3)
+			quotedStyle := r.Bool()
+			t := genEscTmpl(r, d, quotedStyle)
+			txt := eprintBody(0, t)
+			for tries := 0; len(txt) > 900 && tries < 20; tries++ { // 2^(2d+1)-1 backslashes per special rune
+				if d > 2 {
+					d--
+				}
+				t = genEscTmpl(r, d, quotedStyle)
+				txt = eprintBody(0, t)
+			}
+			if len(txt) > 900 {
+				t = []cpiece{{kind: 0, s: genEscLit(r, 1, 6)}}
+				txt = eprintBody(0, t)
+			}
+			style := "bare"
+			if quotedStyle {
+				style = "quoted"
+			}
+			cases = append(cases, mkCase("escaped-tree", "KEscTree "+coqBody(t), txt, fmt.Sprintf("esc-tree-depth=%d", d), "esc-tree-style="+style))
 		case x < 45:
 			t := genTmpl(r, depth)
 			cases = append(cases, mkCase("tree", "KTree "+coqBody(t), printBody(t), fmt.Sprintf("tree-depth=%d", depth)))
@@ -1010,7 +1140,8 @@ func main() {
 		Name:   "C09",
 		Header: "From Coq Require Import List NArith.\nFrom RareV Require Import Model.Tmpl Model.TmplPrint Corr.C09Case.\nImport ListNotations.\nOpen Scope N_scope.\n",
 		Rule: "1 table case (unicode.IsSpace on every rune < 0x3100 + sample of the other planes vs Model/IsSpace.v); exhaustive small scope (every string of length <= 3 (quick) / 4 (thorough) over { } \" \\ space a 1); " +
-			"16 fixed templates; then seeded random: 45% concrete syntax trees of depth <= 4 (calls of probes f0..f3/g2, group and key look-ups incl. Atoi edge spellings, literals over a pool with NUL, non-ASCII and astral runes) printed with a random admissible layout (Unicode white-space runs, quoted/bare items, empty quoted argument) claimed to evaluate as the tree dictates; " +
+			"16 fixed templates; then seeded random: 37% concrete syntax trees of depth <= 4 (calls of probes f0..f3/g2, group and key look-ups incl. Atoi edge spellings, literals over a pool with NUL, non-ASCII and astral runes) printed with a random admissible layout (Unicode white-space runs, quoted/bare items, empty quoted argument) claimed to evaluate as the tree dictates; " +
+			"8% trees of call depth 2..4 whose literal arguments are over space, backslash, braces, double quote, TAB/LF/CR, the letters n t r and non-ASCII runes at every depth, printed with layered escapes (2^(2d+1)-1 backslashes before a special rune at call depth d; arguments quoted or bare) and claimed to evaluate as the tree dictates (C09_print_parse_escaped); " +
 			"10% escaped renderings of random strings over the full rune range (round trip); 20% error shapes (empty statement, unterminated statement, unknown function, empty statement inside an argument: re-based offset) around printed trees with the exact error list claimed; 13% mutations (delete/insert/swap/replace a brace, quote, backslash or space) of printed trees; 7% random strings over a syntax-heavy alphabet. " +
 			"13% of the random draws are SEQUENCES: 2..6 templates compiled one after another on the same KeyBuilder (the same template twice; different templates sharing a malformed or well-formed argument text, claimed with the exact re-based error list of C09_err_rebase; malformed between well-formed; quoted arguments with an escaped brace; Func() re-registrations in between), each compile compared with the model of that template alone and evaluated both at once and after the whole sequence; half of the sequences run over 2..3 builders made with Funcs(base) from ONE base map (created before or after the registrations): registrations of h0/h1/twice on one builder, calls of them on every builder (exact unknown-function error claimed where the builder did not register it; model under the extended table where it did), HasFunc of every builder = base set + own registrations and the base map unchanged after every compile; 8 fixed sequences. " +
 			"Observables: BuildKey output against the recording context with the optimising and the plain builder, compile errors (kind, rune offset); a panic is an observable. " +
